@@ -211,6 +211,7 @@ package runner
 //@   waive safe.close "C12 (cancellation safety) is not claimed: with two runs in flight a Cancel makes both close doneCh"
 //@   requires runnerOK(r) && taskOK(t) && compiledClosed()
 //@   modifies *
+//@   effect no lock-held at execute
 //@   ensures #C07.success-records-zero result == nil && !t.Skipped && !old(t.Errored) ==> t.ExitCode == 0 && !t.Errored
 //@   ensures #C07.execute-failure-reported calls(execute) == 1 && gExecErr != nil ==> result != nil
 //@   ensures #C06.skipped-ran-nothing-else calls(checkTaskCondition) == 1 && !gCondMet && gCondErr == nil ==> result == nil && t.Skipped && calls(before) == 0 && calls(CompileTask) == 0 && calls(execute) == 0 && calls(after) == 0
